@@ -21,7 +21,9 @@
    * the source of a setter is either memory outside the node or a pointer into a heap
      block (the node's own buffer, json_object_get_string(o) + off); a heap source is read
      from the heap as it is when the C code reads it, so the order of copy and release
-     matters.
+     matters.  (State after "fix: json_object_set_string(_len): the new contents may overlap
+     the current ones": memmove in the reuse branch, and the grow branch fills the new
+     buffer before it releases or overwrites anything.)
    LP64 constants: HDR = sizeof( *jso) - sizeof(jso->c_string) = 48, sizeof(void* ) = 8
    (harness/drv_str.c refuses to run on another ABI). *)
 From JC Require Import Base.
@@ -239,38 +241,38 @@ Inductive sptr :=
 | PExt (bs : list byte)
 | PHeap (id off : Z).
 
-(* the source operand of memcpy(dst-block + 0, src, n): None = undefined.
+(* the source operand of a copy of n bytes: None = undefined.
    * external: n bytes must be readable;
    * heap: n = 0 accesses no byte (this is the zero-length path, where the old buffer has
-     already been released); otherwise the block must be live and the range inside it, and
-     the ranges must not partially overlap.  Exactly equal pointers are accepted: it is the
-     de-facto guarantee of every memcpy in use (compilers emit such calls themselves, ASan's
-     overlap check exempts to == from); in-place truncation relies on it. *)
-Definition src_read (h : heap) (p : sptr) (dst n : Z) : option cells :=
+     already been released); otherwise the block must be live and the range inside it.
+   The cells are read before anything is stored, which is the meaning of memmove (the copy
+   behaves as if through a temporary) and of memcpy into a fresh block: a source that
+   overlaps the destination is defined, the bytes read are those before the call. *)
+Definition src_read (h : heap) (p : sptr) (n : Z) : option cells :=
   match p with
   | PExt bs => if n >? zlen bs then None else Some (map Some (zfirstn n bs))
-  | PHeap id off =>
-      if n =? 0 then Some []
-      else if (id =? dst) && (0 <? off) && (off <? n) then None
-      else hread h id off n
+  | PHeap id off => if n =? 0 then Some [] else hread h id off n
   end.
 
-(* memcpy(dstbuf, s, len); dstbuf[len] = '\0'; jso->len = newlen; return 1 *)
-Definition set_finish (s : st) (dst : Z) (p : sptr) (ulen newlen : Z) : sres :=
-  match src_read (hp s) p dst ulen with
-  | None => SUB
+(* copy [ulen] bytes from the source to the start of block [dst], then the terminator *)
+Definition fill (h : heap) (dst : Z) (p : sptr) (ulen : Z) : option heap :=
+  match src_read h p ulen with
+  | None => None
   | Some cs =>
-    match hstore (hp s) dst 0 cs with
-    | None => SUB
-    | Some h1 =>
-      match hwrite h1 dst ulen [0] with
-      | None => SUB
-      | Some h2 =>
-        (* inline bytes overwrite the representation of the pointer (union) *)
-        SOk (mkst newlen (ilen0 s) (if dst =? 0 then None else pptr s) h2 (reqs s) (elog s)) 1
-            [mkwr dst 0 ulen; mkwr dst ulen 1]
-      end
+    match hstore h dst 0 cs with
+    | None => None
+    | Some h1 => hwrite h1 dst ulen [0]
     end
+  end.
+
+(* memmove(dstbuf, s, len); dstbuf[len] = '\0'; jso->len = newlen; return 1 *)
+Definition set_finish (s : st) (dst : Z) (p : sptr) (ulen newlen : Z) : sres :=
+  match fill (hp s) dst p ulen with
+  | None => SUB
+  | Some h2 =>
+      (* inline bytes overwrite the representation of the pointer (union) *)
+      SOk (mkst newlen (ilen0 s) (if dst =? 0 then None else pptr s) h2 (reqs s) (elog s)) 1
+          [mkwr dst 0 ulen; mkwr dst ulen 1]
   end.
 
 Definition set_string_sz (al : alloc) (s : st) (bs : sptr) (ulen : Z) : sres :=
@@ -284,22 +286,28 @@ Definition set_string_sz (al : alloc) (s : st) (bs : sptr) (ulen : Z) : sres :=
       if ulen >? curlen then
         if al (reqs s1) (ulen + 1) then        (* dstbuf = malloc(len + 1) *)
           let '(h1, id) := hmalloc (hp s1) (ulen + 1) in
-          let fr :=                            (* if (jso->len < 0) free(pdata) *)
-            if slen s1 <? 0 then
-              match pptr s1 with
-              | Some p => match hfree h1 p with Some h => Some (h, [EvFree p]) | None => None end
-              | None => None
-              end
-            else Some (h1, []) in
-          match fr with
+          (* memcpy(dstbuf, s, len); dstbuf[len] = '\0': the new buffer is filled while the
+             old storage is still intact (the source may point into it) *)
+          match fill h1 id bs ulen with
           | None => SUB
-          | Some (h2, evs) =>
-            match hstore h2 0 0 (zrepeat None PTRSZ) with     (* c_string.pdata = dstbuf *)
+          | Some h1' =>
+            let fr :=                          (* if (jso->len < 0) free(pdata) *)
+              if slen s1 <? 0 then
+                match pptr s1 with
+                | Some p => match hfree h1' p with Some h => Some (h, [EvFree p]) | None => None end
+                | None => None
+                end
+              else Some (h1', []) in
+            match fr with
             | None => SUB
-            | Some h3 =>
-              set_finish (mkst (slen s1) (ilen0 s1) (Some id) h3 (reqs s1 + 1)
-                               (evs ++ EvMalloc id (ulen + 1) :: elog s1))
-                         id bs ulen (- ulen)
+            | Some (h2, evs) =>
+              match hstore h2 0 0 (zrepeat None PTRSZ) with     (* c_string.pdata = dstbuf *)
+              | None => SUB
+              | Some h3 =>                                        (* jso->len = -len; return 1 *)
+                SOk (mkst (- ulen) (ilen0 s1) (Some id) h3 (reqs s1 + 1)
+                          (evs ++ EvMalloc id (ulen + 1) :: elog s1)) 1
+                    [mkwr id 0 ulen; mkwr id ulen 1]
+              end
             end
           end
         else SOk (mkst (slen s1) (ilen0 s1) (pptr s1) (hp s1) (reqs s1 + 1) (elog s1)) 0 []
@@ -447,6 +455,6 @@ Definition op_bytes (c : list byte) (o : sop) : list byte :=
   match o with
   | OpSetLen bs len => zfirstn len bs
   | OpSet bs => cstr bs
-  | OpSetOwnLen off len => zfirstn len (zskipn off c)
+  | OpSetOwnLen off len => zfirstn len (zskipn off (c ++ [0]))    (* the terminator is readable too *)
   | OpSetOwn off => cstr (zskipn off c ++ [0])
   end.
